@@ -24,7 +24,16 @@ def mode_machine(p):
                     if via == "from_hdf5":
                         r = GMMMachine.from_hdf5(path, ubm=ubm if trainer == "map" else None)
                     else:
+                        # the receiver is an object that has been USED with another model (other weights, floors, shape)
                         r = GMMMachine(C + 1, trainer=trainer, ubm=mk_gmm(C + 1, D, 5) if trainer == "map" else None)
+                        if seed % 2 == 0:
+                            other = mk_gmm(C, D, seed + 9)
+                            r = GMMMachine(C, trainer=trainer, ubm=mk_gmm(C, D, 5) if trainer == "map" else None)
+                            r.variance_thresholds = 0.75
+                            r.means, r.variances = other.means, other.variances + 1.0
+                            w_ = rs.uniform(0.1, 1, size=C)
+                            r.weights = w_ / w_.sum()
+                            r.log_likelihood(rs.normal(size=(3, D)))
                         if trainer == "map":
                             r.ubm = ubm
                         r.load(path)
